@@ -4,7 +4,7 @@ Used by props c05/c06 through the hook `source_ties` of runner.proof_stage.  Ret
 import os, re, subprocess, shutil, time, difflib
 from . import coqrun, py2coq_body
 
-LEMMAS = ['compile_expression_src_eq', 'compile_unification_src_eq', 'tcut_src_eq', 'loc_src_eq', 'comp_src_eq', 'comp_src_eq_source', 'control_correct_src', 'comp_src_total']
+LEMMAS = ['compile_expression_src_eq', 'compile_unification_src_eq', 'compile_arg_list_unification_src_eq', 'compile_arg_list_unification_src_model', 'tcut_src_eq', 'loc_src_eq', 'comp_src_eq', 'comp_src_eq_source', 'control_correct_src', 'comp_src_total']
 TEMPLATE = os.path.join(coqrun.COQ, 'tie', 'CompileBodyTie.v.in')
 EXPECTED = os.path.join(coqrun.COQ, 'tie', 'CompileBodySrc.expected.v')
 
